@@ -268,6 +268,15 @@ pub fn run_c01(out: &mut Out, tier: &str, seed: u64) {
                 let pre = dryoc::precalc::PrecalcSecretKey::<StackByteArray<32>>::precalculate(&StackByteArray::<32>::from(pkb), &StackByteArray::<32>::from(ska));
                 let pb = dryoc::dryocbox::VecBox::precalc_encrypt_to_vecbox(&m, &StackByteArray::<24>::from(&n), &pre).unwrap();
                 if pb.to_vec() != s { out.hit("obj.box.precalc_encrypt.differs-from-libsodium", format!("len {}", len), json!({"len":len})); }
+                // the key pair's own precalculation entry point
+                let kpa: BoxKeyPair = BoxKeyPair::from_secret_key(StackByteArray::<32>::from(ska));
+                let pre2 = kpa.precalculate(&StackByteArray::<32>::from(pkb));
+                out.search_evaluations += 1;
+                if Some(*pre2.as_array()) != sodium::box_beforenm(pkb, ska) { out.hit("obj.keypair.precalculate.differs-from-libsodium", format!("len {}", len), json!({"op":"obj.KeyPair.precalculate","pk":hx(pkb),"sk":hx(ska)})); }
+                match guard(|| dryoc::dryocbox::VecBox::from_bytes(&s).and_then(|bx| bx.precalc_decrypt_to_vec(&StackByteArray::<24>::from(&n), &pre2))) {
+                    Outcome::Ok(mm) if mm == m => {}
+                    _ => out.hit("obj.box.precalc_decrypt.rejects-libsodium-box", format!("len {}", len), json!({"op":"obj.DryocBox.precalc_decrypt","len":len})),
+                }
             }
         }
     }
